@@ -350,6 +350,7 @@ int drive(int argc, char** argv, const char* prop, Hooks<Case> hk)
       meta.description = prop;
       target.clear();
       long shrink_steps_this_round = 0;
+      double shrink_deadline = 0;   // bounds the shrinking effort of one round (never the verdict)
       auto body = [&]() {
          const bool shrinking = !target.empty();
          if (!shrinking && now_s() - t0 > o.budget_s) {
@@ -363,7 +364,7 @@ int drive(int argc, char** argv, const char* prop, Hooks<Case> hk)
          if (shrinking) {
             // bounded shrinking effort: past the limit every candidate counts as passing, so rapidcheck settles on
             // the smallest failing case found so far
-            if (++shrink_steps_this_round > o.get("shrinklimit", 4000)) return;
+            if (++shrink_steps_this_round > o.get("shrinklimit", 4000) || now_s() > shrink_deadline) return;
             ++tally.shrink_steps;
             for (auto& f : out.findings)
                if (f.signature == target) {
@@ -390,6 +391,7 @@ int drive(int argc, char** argv, const char* prop, Hooks<Case> hk)
             target = f.signature;
             last_fail = c;
             last_msg = f.message;
+            shrink_deadline = now_s() + double(o.get("shrinkseconds", 45));
             RC_FAIL(f.signature);
          }
       };
